@@ -89,6 +89,11 @@ func buildProperty(ww *conversionVisitor, node *sourcewalk.PropertyNode) (*descr
 			Options:  &descriptorpb.FieldOptions{},
 		}
 
+		if st.Map.Ext != nil {
+			// (j5.ext.v1.field).map is where the reader looks for the single form.
+			ww.setJ5Ext(node.Source, fieldDesc.Options, "map", st.Map.Ext)
+		}
+
 		// The validator takes the rules for map values from the map field, not
 		// from the value field of the entry message (as for array items).
 		valueValidate := proto.GetExtension(itemDesc.Options, validate.E_Field).(*validate.FieldConstraints)
